@@ -15,7 +15,7 @@ from ..sim.appsim import AppSim, exc_site
 PROPERTY_ID = 'C19'
 RULE = ('Legacy NDNApp + scripted producer on the virtual loop. Object: unsegmented, or 1..7 segments under /obj[/v=N]; FinalBlockId on '
         'the last segment only or on all; discovery (prefix Interest) answered by segment k for any k or by the unsegmented Data; '
-        'retry_times 1..4; a loss matrix (discovery/segment x attempt) biased to "r-1 losses then success" and "exactly r losses"; '
+        'retry_times 1..4 (and 0 without losses); a loss matrix (discovery/segment x attempt) biased to "r-1 losses then success" and "exactly r losses"; '
         'optionally a Nack or a validator rejection on one segment. Oracle: yielded list == contents 0..last each once in order (or the '
         'single content) when every row has fewer than r consecutive losses; otherwise InterestTimeout after exactly the preceding '
         'segments were yielded and exactly r Interests were seen for the exhausted one; Nack / ValidationFailure propagate at that '
